@@ -1618,12 +1618,18 @@ impl Prop for C19 {
             all.push(ops);
         }
         // a held lock: 30 s time-out, destination untouched
-        let timeouts: &[(&str, &str)] = if tier == Tier::Quick { &[("wal", "shm.READ1")] } else { &[("wal", "shm.READ1"), ("wal", "shm.WRITE"), ("delete", "db.SHARED"), ("delete", "db.RESERVED")] };
-        for (mode, slot) in timeouts {
-            let mut ops = scenario(true, 2, "self");
+        // (`self` makes the CLI read the destination through SQLite first, which a foreign shared lock on
+        // shm.WRITE of a fresh -shm would already refuse with SQLITE_PROTOCOL: that slot is tried without it)
+        let timeouts: &[(&str, &str, &str)] = if tier == Tier::Quick {
+            &[("wal", "shm.READ1", "self")]
+        } else {
+            &[("wal", "shm.READ1", "self"), ("wal", "shm.WRITE", "no"), ("wal", "shm.READ4", "actor:6"), ("delete", "db.SHARED", "self"), ("delete", "db.RESERVED", "no")]
+        };
+        for (mode, slot, keep) in timeouts {
+            let mut ops = scenario(true, 2, keep);
             ops.truncate(ops.len() - 3);
             ops.push(format!("mode 1 {mode}"));
-            ops.push(format!("timeout 0 1 self {slot}"));
+            ops.push(format!("timeout 0 1 {keep} {slot}"));
             ops.push("inspect 1".into());
             ops.push("inspects 0".into());
             all.push(ops);
